@@ -186,7 +186,7 @@ CHECKS.update({
              "predictions and with each other; boolean parameters must change the outcome on discriminating constructs on every "
              "path; byte sizes quoted in messages are compared with types.Sizes (incl. same-named local types of different size).",
         design_ref="DESIGN.md section 6 C14",
-        note="ifElseChain / commentedOutCode: only monotone single-step behaviour is required; skipTestFuncs parameters uncovered. Every measured construct must be reported at most once, and the sets of reported lines at neighbouring thresholds must be nested.",
+        note="ifElseChain / commentedOutCode: only monotone single-step behaviour is required; skipTestFuncs parameters uncovered. The sets of reported lines at neighbouring thresholds must be nested (monotonicity per diagnostic, not only per construct).",
         technique="TLA+ flow model + threshold table replayed on the three entry paths",
         engine="params"),
     "C17": dict(
